@@ -516,6 +516,15 @@ def run(args):
         samples += lres["samples"][:2]
         distinct |= lres["distinct"]
 
+        # ---- symbol table of the listing / share files under -h, character sets, all integer syntaxes (vlib/props/c19_syms.py, driver mode c19s)
+        from . import c19_syms
+        yres = c19_syms.run_syms(bdir, wd, common.rng_for(args.seed, "C19-syms"), {"quick": 160, "thorough": 2400}[args.tier], ok)
+        spec_fail += yres["spec_fail"]
+        corr_fail += yres["corr_fail"]
+        dist["symbols"] = dict(generated=yres["agg"], **yres["dist"])
+        samples += yres["samples"][:2]
+        distinct |= yres["distinct"]
+
         # ---- golden corpus
         tests = common.corpus_tests()
         order = list(range(len(tests)))
@@ -567,9 +576,10 @@ def run(args):
     res.coverage.update(
         evaluations=agg["code_groups"] + agg["map_entries"] + agg["sym_list"] + agg["sym_map"] + agg["sym_share"] + dist["corpus"]["via_map"] + dist["corpus"]["direct"]
         + sum(dist["wide"]["generated"][k] for k in ("code_groups", "map_entries", "sym_list", "sym_map", "sym_share"))
-        + sum(dist["lines"]["generated"][k] for k in ("map_entries", "noice_entries", "atmel_records", "listing_groups")),
+        + sum(dist["lines"]["generated"][k] for k in ("map_entries", "noice_entries", "atmel_records", "listing_groups"))
+        + sum(dist["symbols"]["generated"][k] for k in ("sym_list", "sym_share", "sym_included")),
         distinct_nontrivial=len(distinct),
-        rule="generated programs on z80/6502/8051/8086 (data lines 1..40 bytes with continuation lines, reservations, ORG, SEGMENT, PHASE, macros, REPT, nested INCLUDE, IF, LISTING OFF, EQU, SHARED incl. forward reference) x list radix x share format; evaluation = one listed line group / MAP entry / symbol value joined with the code file; distinct by (cpu, radix, share format, #groups, #bytes, #map entries); the same on word-listed / word-addressed targets (68000 dc.b/dc.w/dc.l with PADDING, TMS320C25, TMS320C30, PIC 16C84, ATmega8, MSP430, CP-1600, 80960: data lines of 1..13 units = up to 5 listing lines, byte-dumped remainders, reservations, ORG, SEGMENT, PHASE, macros, REPT, INCLUDE, LISTING OFF); source positions: nesting trees (main file + include files in several directories incl. equal base names and repeated inclusion, INCLUDE inside REPT/IRP/IRPN/IRPC/WHILE/macro bodies and nested, blocks in blocks and in macros, REPT 0 / WHILE 0, code after every block, continuation lines) on z80/6502/8051/8086, evaluation = one MAP / NoICE record or listing line group joined with the code file and the structural position (file, admissible lines), distinct by (cpu, #executed statements, #files, #records, #bytes)",
+        rule="generated programs on z80/6502/8051/8086 (data lines 1..40 bytes with continuation lines, reservations, ORG, SEGMENT, PHASE, macros, REPT, nested INCLUDE, IF, LISTING OFF, EQU, SHARED incl. forward reference) x list radix x share format; evaluation = one listed line group / MAP entry / symbol value joined with the code file; distinct by (cpu, radix, share format, #groups, #bytes, #map entries); the same on word-listed / word-addressed targets (68000 dc.b/dc.w/dc.l with PADDING, TMS320C25, TMS320C30, PIC 16C84, ATmega8, MSP430, CP-1600, 80960: data lines of 1..13 units = up to 5 listing lines, byte-dumped remainders, reservations, ORG, SEGMENT, PHASE, macros, REPT, INCLUDE, LISTING OFF); source positions: nesting trees (main file + include files in several directories incl. equal base names and repeated inclusion, INCLUDE inside REPT/IRP/IRPN/IRPC/WHILE/macro bodies and nested, blocks in blocks and in macros, REPT 0 / WHILE 0, code after every block, continuation lines) on z80/6502/8051/8086, evaluation = one MAP / NoICE record or listing line group joined with the code file and the structural position (file, admissible lines), distinct by (cpu, #executed statements, #files, #records, #bytes); symbols: programs of EQU / SET / labels / section-local / float / string symbols on 13 targets of the four integer syntaxes (Intel, Motorola, C, IBM) x character set (ASCII, ISO 8859-1, UTF-8 via LC_CTYPE / LC_ALL / LANG / -codepage) x -h x -U x list radix x page width x share format, names of 2..110 characters with 0..90 % characters beyond ASCII, values with a letter as leading hex digit, negative values; evaluation = one symbol of the listing's symbol table / one share file definition / one symbol of the program that includes the assembler-format share file, compared with the value in the source; distinct by (cpu, character set, share format, -h, radix, #table cells, #shared)",
         samples=samples, distribution=dict(generated=agg, **dist))
     res.assumptions = ["word-listed lines of the golden corpus are joined by the general documented reading with every address-unit size and byte order for which the code file has records (no per-target knowledge)",
                        "generated word-listed programs: address-unit size, byte order, data directives and the even-address padding rule per target are generator knowledge (manufacturer documentation / doc/pseudo-instructions.md)",
@@ -577,7 +587,7 @@ def run(args):
                        "NoICE and Atmel debug files: the line records of generated programs only (NoICE symbol definitions, Atmel code words are not compared)",
                        "a statement inside a macro expansion or inside a block nested in another block may be attributed to the line of an enclosing statement (macro call, opening line of the block) of the file being read: the manual only says 'the machine code generated for the source statement in a certain line'",
                        "hook H2 (emission trace) is not present; the generator's own bookkeeping supplies segment/phase per listed line"]
-    return common.conclude(res, proof_problems, spec_fail, corr_fail, agg["programs"] + dist["wide"]["generated"]["programs"] + dist["lines"]["generated"]["programs"] + dist["corpus"]["tests"])
+    return common.conclude(res, proof_problems, spec_fail, corr_fail, agg["programs"] + dist["wide"]["generated"]["programs"] + dist["lines"]["generated"]["programs"] + dist["symbols"]["generated"]["programs"] + dist["corpus"]["tests"])
 
 
 def replay(args):
@@ -588,12 +598,24 @@ def replay(args):
         with common.Workdir("c19r") as wd:
             for n, t in d["files"].items():
                 os.makedirs(os.path.dirname(os.path.join(wd, n)), exist_ok=True)
-                open(os.path.join(wd, n), "w").write(t)
-            rc, so, se = common.run_tool(bdir, "asl", d["args"], wd)
+                open(os.path.join(wd, n), "w", encoding=d.get("encoding")).write(t)
+            env = None
+            if "env" in d:
+                # character set of the run: exactly the LC_CTYPE / LC_ALL / LANG of the failing case
+                env = {k: v for k, v in common.tool_env(bdir).items() if k not in ("LC_CTYPE", "LC_ALL", "LANG")}
+                env.update(d["env"])
+
+            def asl(a):
+                if env is None:
+                    return common.run_tool(bdir, "asl", a, wd)
+                from . import c19_syms
+                return c19_syms.tool(bdir, "asl", a, wd, env)
+            rc, so, se = asl(d["args"])
             print("asl rc =", rc, (so + se).decode(errors="replace")[-500:])
-            for k_ in ("args_noice", "args_atmel"):
+            for k_ in ("args_noice", "args_atmel", "args_include"):
                 if k_ in d:
-                    common.run_tool(bdir, "asl", d[k_], wd)
+                    rc, so, se = asl(d[k_])
+                    print(k_, "rc =", rc, (so + se).decode(errors="replace")[-500:])
             for root, _dirs, fs in sorted(os.walk(wd)):
                 for f in sorted(fs):
                     if f.endswith((".lst", ".map", ".shr", ".noi")):
